@@ -100,7 +100,7 @@ Definition run (args : list bytes) : bytes :=
               | Some spent =>
                   match all_some (map (parse_op pt_ok maxvec cv spent genesis) (split_on x3b ops [])) with
                   | None => err "ops"
-                  | Some os => join (L ";") (map show_result (SighashCache.run pt_ok maxvec ci co sha256 htapsighash (init t) os))
+                  | Some os => join (L ";") (map show_result (SighashCache.run pt_ok maxvec sha256 htapsighash (init t) os))
                   end end end
       | _, _, _, _ => err "parse" end
   | _ => err "args" end.
